@@ -87,6 +87,16 @@ Merge(i, j, update) ==
   /\ LET nv == <<"obj", MergeInto(slot[i][2], slot[j][2], 1, update)>> IN Fits(nv) /\ slot' = [slot EXCEPT ![i] = nv]
   /\ Log(<<IF update THEN "merge_or_update" ELSE "merge", i, j>>)
 
+\* range insert: insert(first, last) over a sequence of (key, value) pairs that may repeat keys; a key already
+\* present (in the object or earlier in the range) is skipped - first wins; values are the 1-based positions
+RECURSIVE RangeInto(_, _, _)
+RangeInto(ps, ks, n) == IF n > Len(ks) THEN ps
+                        ELSE RangeInto(IF Find(ps, ks[n]) = 0 THEN InsertMember(ps, ks[n], <<"int", n>>) ELSE ps, ks, n + 1)
+InsertRange(i, ks) ==
+  /\ IsObj(slot[i])
+  /\ LET nv == <<"obj", RangeInto(slot[i][2], ks, 1)>> IN Fits(nv) /\ slot' = [slot EXCEPT ![i] = nv]
+  /\ Log(<<"insert_range", i, ks>>)
+
 (* --- array operations (slot i holds an array) ------------------------- *)
 PushBack(i, j) ==
   /\ IsArr(slot[i]) /\ Known(slot[j])
@@ -106,7 +116,7 @@ EraseRange(i, a, b) ==
   /\ Log(<<"erase_range", i, a, b>>)
 Resize(i, n) ==
   /\ IsArr(slot[i]) /\ n \in 0..MaxSize
-  /\ slot' = [slot EXCEPT ![i] = <<"arr", [k \in 1..n |-> IF k <= Len(slot[i][2]) THEN slot[i][2][k] ELSE <<"null">>]>>]     \* new elements are default (null) values
+  /\ slot' = [slot EXCEPT ![i] = <<"arr", [k \in 1..n |-> IF k <= Len(slot[i][2]) THEN slot[i][2][k] ELSE <<"obj", <<>>>>]>>]     \* new elements are default-constructed values; a default basic_json is an empty object (doc/ref/corelib/basic_json.md)
   /\ Log(<<"resize", i, n>>)
 SetAt(i, pos, j) ==
   /\ IsArr(slot[i]) /\ Known(slot[j]) /\ i # j /\ pos \in 0..(Len(slot[i][2]) - 1)
@@ -122,6 +132,8 @@ Next ==
   \/ \E i \in Slots, j \in Slots : CopyAssign(i, j) \/ CopyCtor(i, j) \/ MoveAssign(i, j) \/ MoveCtor(i, j) \/ Swap(i, j)
   \/ \E i \in Slots, k \in Keys, j \in Slots : InsertOrAssign(i, k, j) \/ TryEmplace(i, k, j)
   \/ \E i \in Slots, k \in Keys : EraseKey(i, k)
+  \/ \E i \in Slots, k1 \in Keys, k2 \in Keys : InsertRange(i, <<k1, k2>>)
+  \/ \E i \in Slots, k1 \in Keys, k2 \in Keys, k3 \in Keys : (MaxSize >= 3 /\ k1 # k3 /\ InsertRange(i, <<k1, k2, k3>>))
   \/ \E i \in Slots, j \in Slots : Merge(i, j, TRUE) \/ Merge(i, j, FALSE) \/ PushBack(i, j)
   \/ \E i \in Slots, j \in Slots, p \in 0..MaxSize : InsertAt(i, p, j) \/ SetAt(i, p, j)
   \/ \E i \in Slots, p \in 0..MaxSize : EraseAt(i, p) \/ Resize(i, p)
